@@ -13,11 +13,12 @@ import (
 // log and one JSON line per finished case to the output file, so that a death is
 // attributed to the case that began and did not end and everything before it is kept.
 type job struct {
-	Kind   string      `json:"kind"` // load | gate | seq | lgate
+	Kind   string      `json:"kind"` // load | gate | seq | lgate | deep
 	Rounds []round     `json:"rounds,omitempty"`
 	Gates  []gateCell  `json:"gates,omitempty"`
 	Seqs   []seqCell   `json:"seqs,omitempty"`
 	Locals []localCell `json:"locals,omitempty"`
+	Deeps  []deepCell  `json:"deeps,omitempty"`
 	Base   int         `json:"base"` // index of the first cell (fixes the request method of a cell)
 }
 
@@ -45,6 +46,10 @@ func (j job) caseNames() []string {
 		}
 	case "lgate":
 		for _, c := range j.Locals {
+			out = append(out, c.key())
+		}
+	case "deep":
+		for _, c := range j.Deeps {
 			out = append(out, c.key())
 		}
 	}
@@ -91,6 +96,9 @@ func workerMain(jobPath, outPath, logPath string) {
 			l.Cell = &r
 		case "lgate":
 			r := runLocalCell(j.Locals[i], j.Base+i)
+			l.Cell = &r
+		case "deep":
+			r := runDeepCell(j.Deeps[i], j.Base+i)
 			l.Cell = &r
 		}
 		emit(l)
